@@ -48,7 +48,8 @@ def case(draw, tier):
          # rowmap/rowmapmany: the mapper hands back a lazy iterable (generator) that fails while petl builds the row from it
          "lazy": draw(st.booleans()),
          # fieldmap: an output field is added to the caller's mappings object after the view was first used
-         "late_mapping": draw(st.integers(0, 3)) == 0}
+         "late_mapping": draw(st.integers(0, 3)) == 0,
+         "plain_fn": draw(st.booleans())}
     cells = [(r, f) for r in range(n) for f in range(nf)]
     if op == "convert-chain" and nf < 2:
         op = c["op"] = "convert-multi"
@@ -224,12 +225,24 @@ def check(case, ctx):
                         yield bad()   # a row that fails while it is being built
                     else:
                         raise cls(_tok(r, 0))
+            plainfn = bool(case.get("plain_fn"))
+            if plainfn:
+                # the row generator is a plain function handing back a list (as in petl's own examples): it fails before it
+                # has produced anything
+                ctx.label("plain-function-rowgenerator")
+
+                def genrows(rec):  # noqa: F811
+                    r = int(rec[0][1:].split("c")[0])
+                    k, fails = plan[r]
+                    if fails:
+                        raise cls(_tok(r, 0))
+                    return [[r, j] for j in range(k)]
             view = etl.rowmapmany(tbl, genrows, header=["r", "j"], **kw)
             exp_hdr = ("r", "j")
             exp_rows = []
             for r in range(n):
                 k, fails = plan[r]
-                for j in range(k):
+                for j in range(0 if (plainfn and fails) else k):
                     exp_rows.append(("row", [("VAL", r), ("VAL", j)]))
                 if fails:
                     if policy is True:
